@@ -8,7 +8,8 @@
 //
 // Edits:
 //   - import "sync" -> sync ".../verifsim/ssync"; "math/rand" -> srand;
-//     "crypto/rand" -> scrand (internal/core only)
+//     "crypto/rand" -> scrand (internal/core only); "net" -> snet in
+//     transport/{tcp,ipc,tlstcp}; "crypto/tls" -> stls in transport/tlstcp
 //   - go f(a...)  -> { verifF, verifA0 := f, a; simrt.Go(site, func(){ verifF(verifA0) }) }
 //   - time.AfterFunc( -> simrt.AfterFunc(site, ; time.Sleep( -> simrt.Sleep(
 //   - simrt.Yield() as first statement of every select clause, after every
@@ -95,6 +96,14 @@ func main() {
 	fmt.Println(string(b))
 }
 
+// netShimDir: the transports whose use of package net goes through verifsim/snet
+func netShimDir(rel string) bool {
+	if os.Getenv("VERIF_NO_NETSHIM") != "" {
+		return false
+	}
+	return strings.HasPrefix(rel, "transport/tcp/") || strings.HasPrefix(rel, "transport/ipc/") || strings.HasPrefix(rel, "transport/tlstcp/")
+}
+
 func doFile(path, rel string) error {
 	src, err := os.ReadFile(path)
 	if err != nil {
@@ -133,6 +142,14 @@ func doFile(path, rel string) error {
 		case "crypto/rand":
 			if strings.HasPrefix(rel, "internal/core/") {
 				repl, name = modPath+"/verifsim/scrand", "rand"
+			}
+		case "net":
+			if netShimDir(rel) {
+				repl, name = modPath+"/verifsim/snet", "net"
+			}
+		case "crypto/tls":
+			if netShimDir(rel) && strings.HasPrefix(rel, "transport/tlstcp/") {
+				repl, name = modPath+"/verifsim/stls", "tls"
 			}
 		case "time":
 			hasTime = true
